@@ -53,6 +53,7 @@ class Run:
     def pyenv(self, asan=False, extra=None):
         e = dict(os.environ)
         e['PYTHONPATH'] = self.build(asan) + os.pathsep + VERIF
+        e['VERIF_BUILD_DIR'] = self.build(asan)
         e['PYTHONHASHSEED'] = '0'
         e['VERIF_SEED'] = str(self.seed)
         e['VERIF_TIER'] = self.tier
